@@ -32,9 +32,11 @@ enum F {
     MiBPlus8,
     B12,
     Missing,
+    B4,
+    B4100,
 }
 
-const ALL_FILES: [F; 10] = [F::Empty, F::B8, F::B4088, F::B4096, F::B4104, F::B8192, F::B65536, F::MiBPlus8, F::B12, F::Missing];
+const ALL_FILES: [F; 12] = [F::Empty, F::B8, F::B4088, F::B4096, F::B4104, F::B8192, F::B65536, F::MiBPlus8, F::B12, F::Missing, F::B4, F::B4100];
 /// Depth-5 file set of the thorough tier: the empty file, one sub-page, one exact-page and three
 /// multi-page files (2, 16 and 257 pages) and the file whose size is not a multiple of 8.
 const REDUCED_FILES: [F; 7] = [F::Empty, F::B8, F::B4096, F::B4104, F::B65536, F::MiBPlus8, F::B12];
@@ -57,6 +59,8 @@ impl F {
             F::MiBPlus8 => Some((1 << 20) + 8),
             F::B12 => Some(12),
             F::Missing => None,
+            F::B4 => Some(4),
+            F::B4100 => Some(4100),
         }
     }
 
